@@ -111,7 +111,9 @@ def belowMin (tokens shares minSelf : Int) (sh : Int) : Bool :=
 
 /-- the property predicates on one observed slice transition -/
 def xferPreds (kind : String) (p q : Slice) (minSelf : Int) (isOper redelU redelM : Bool) (amount : Int) (result : String) : String :=
-  if result == "panic" then predfail "C12_no_panic" kind
+  if result == "panic" then
+    -- x/distribution's hook divides by the validator's shares: zero only next to a zero-share delegation (F6 + F7)
+    predfail "C12_no_panic" (if p.found && p.shares == 0 then "distribution-hook-zero-shares" else kind)
   else if result == "err" then
     -- "so every holder can always redeem"
     if kind == "burn" && amount > 0 && p.balU ≥ amount && p.found && !redelM && dm p.delM < amount * P then
@@ -189,12 +191,19 @@ def handleXfer : Handler := fun l =>
   | some (p, minSelf, isOper, redelU, redelM), some q, some denomOk, some amount, some aux =>
     let c := mkSt p minSelf isOper redelU redelM
     let (cls, c') := runKind kind c denomOk amount aux
+    -- the predicates only read the implementation's observation
+    let pred := xferPreds kind p q minSelf isOper redelU redelM amount result
+    -- a failure of one of the statements that hold on the unchanged tree is the sharper verdict: report it even
+    -- when the model (which follows the unchanged tree) disagrees with the implementation on this case
+    let sharp := ["PREDFAIL C12_guards", "PREDFAIL C12_bonded_tokens_unchanged", "PREDFAIL C12_no_unbonding_entry",
+                  "PREDFAIL C12_moves_stake"].any (fun pre => pred.startsWith pre)
     if cls == "bad" then badInput "kind"
+    else if sharp then pred
     else if cls != result then mismatch "result" cls result
     else
       let cmp := if result == "ok" then cmpSt kind c' q else "ok"
       if cmp != "ok" then cmp
-      else xferPreds kind p q minSelf isOper redelU redelM amount result
+      else pred
   | _, _, _, _, _ => badInput "parse"
 
 /-- backing and empty-delegation predicates on all validators after an event that is not a conversion -/
